@@ -10,6 +10,7 @@
   `Plain`, and the theorems on whole documents.
 -/
 import GoMC.Lemmas.NBTRoundTrip
+import GoMC.Lemmas.NBTSoundTyped
 set_option linter.unusedSimpArgs false
 namespace GoMC.Lemmas.NBTTyped
 open GoMC GoMC.Rd GoMC.Model GoMC.Model.NBT GoMC.Model.Go GoMC.Lemmas.NBTDecode
@@ -36,6 +37,7 @@ structure Exact (cx : SnbtCarrier) (c : GoType) (k : Cls) : Prop where
   marshal : ∀ f t, k.ok t → k.need t ≤ f → marshal cx f (k.inner t) t.tag = Res.ok (encPayload t)
   needPos : ∀ t, k.ok t → 1 ≤ k.need t
   wf : ∀ t, k.ok t → t.WF
+  s15 : ∀ t, k.ok t → S15 t
   /-- the value-side reading: every canonical value is the value of a tree of the class, with the tag `tagV` says -/
   onto : ∀ v, k.canon v → ∃ t, k.ok t ∧ k.val t = v ∧ t.tag = k.tagV v
 
@@ -45,7 +47,7 @@ def Cls.base (ok : NBT → Prop) (val : NBT → GoVal) (need : NBT → Nat) (can
 
 theorem ElemExact.toExact {cx : SnbtCarrier} {c : GoType} {ok : NBT → Prop} {val : NBT → GoVal} {need : NBT → Nat}
     (h : ElemExact cx c ok val need) (canon : GoVal → Prop) (tagV : GoVal → Byte)
-    (hwf : ∀ t, ok t → t.WF)
+    (hwf : ∀ t, ok t → t.WF) (hs15 : ∀ t, ok t → S15 t)
     (honto : ∀ v, canon v → ∃ t, ok t ∧ val t = v ∧ t.tag = tagV v) : Exact cx c (Cls.base ok val need canon tagV) where
   zeroTy := h.zeroTy
   reads := fun d fuel t ht => R_mono (fun hc => by simp only [Cls.base] at hc; omega) (h.reads d fuel t ht)
@@ -53,6 +55,7 @@ theorem ElemExact.toExact {cx : SnbtCarrier} {c : GoType} {ok : NBT → Prop} {v
   marshal := h.marshal
   needPos := h.needPos
   wf := hwf
+  s15 := hs15
   onto := honto
 
 /-! ### the base classes with their canonical values -/
@@ -84,7 +87,7 @@ theorem toNat_ofInt64 (x : Int) (h : 0 ≤ x ∧ x < 18446744073709551616) : ((B
 /-- `i8`: the integers of its range -/
 def clsI8 : Cls := Cls.base okI8 valI8 (fun _ => 2) (fun v => ∃ x : Int, v = .int .i8 x ∧ IK.InRange .i8 x) (fun _ => 1)
 theorem exact_i8 (cx : SnbtCarrier) : Exact cx (.int .i8) clsI8 :=
-  (elem_i8 cx).toExact _ _ (by rintro _ ⟨v, rfl⟩; simp [NBT.WF]) (by
+  (elem_i8 cx).toExact _ _ (by rintro _ ⟨v, rfl⟩; simp [NBT.WF]) (by rintro _ ⟨v, rfl⟩; simp [S15]) (by
     rintro _ ⟨x, rfl, hx⟩
     rw [inRange_i8] at hx
     exact ⟨.byte (BitVec.ofInt 8 x), ⟨_, rfl⟩, by simp only [valI8, toInt_ofInt8 x hx], rfl⟩)
@@ -92,7 +95,7 @@ theorem exact_i8 (cx : SnbtCarrier) : Exact cx (.int .i8) clsI8 :=
 /-- `u8`: the integers of its range -/
 def clsU8 : Cls := Cls.base okU8 valU8 (fun _ => 2) (fun v => ∃ x : Int, v = .int .u8 x ∧ IK.InRange .u8 x) (fun _ => 1)
 theorem exact_u8 (cx : SnbtCarrier) : Exact cx (.int .u8) clsU8 :=
-  (elem_u8 cx).toExact _ _ (by rintro _ ⟨v, rfl⟩; simp [NBT.WF]) (by
+  (elem_u8 cx).toExact _ _ (by rintro _ ⟨v, rfl⟩; simp [NBT.WF]) (by rintro _ ⟨v, rfl⟩; simp [S15]) (by
     rintro _ ⟨x, rfl, hx⟩
     rw [inRange_u8] at hx
     exact ⟨.byte (BitVec.ofInt 8 x), ⟨_, rfl⟩, by simp only [valU8, toNat_ofInt8 x hx], rfl⟩)
@@ -100,7 +103,7 @@ theorem exact_u8 (cx : SnbtCarrier) : Exact cx (.int .u8) clsU8 :=
 /-- `i16`: the integers of its range -/
 def clsI16 : Cls := Cls.base okI16 valI16 (fun _ => 2) (fun v => ∃ x : Int, v = .int .i16 x ∧ IK.InRange .i16 x) (fun _ => 2)
 theorem exact_i16 (cx : SnbtCarrier) : Exact cx (.int .i16) clsI16 :=
-  (elem_i16 cx).toExact _ _ (by rintro _ ⟨v, rfl⟩; simp [NBT.WF]) (by
+  (elem_i16 cx).toExact _ _ (by rintro _ ⟨v, rfl⟩; simp [NBT.WF]) (by rintro _ ⟨v, rfl⟩; simp [S15]) (by
     rintro _ ⟨x, rfl, hx⟩
     rw [inRange_i16] at hx
     exact ⟨.short (BitVec.ofInt 16 x), ⟨_, rfl⟩, by simp only [valI16, toInt_ofInt16 x hx], rfl⟩)
@@ -108,7 +111,7 @@ theorem exact_i16 (cx : SnbtCarrier) : Exact cx (.int .i16) clsI16 :=
 /-- `u16`: the integers of its range -/
 def clsU16 : Cls := Cls.base okU16 valU16 (fun _ => 2) (fun v => ∃ x : Int, v = .int .u16 x ∧ IK.InRange .u16 x) (fun _ => 2)
 theorem exact_u16 (cx : SnbtCarrier) : Exact cx (.int .u16) clsU16 :=
-  (elem_u16 cx).toExact _ _ (by rintro _ ⟨v, rfl⟩; simp [NBT.WF]) (by
+  (elem_u16 cx).toExact _ _ (by rintro _ ⟨v, rfl⟩; simp [NBT.WF]) (by rintro _ ⟨v, rfl⟩; simp [S15]) (by
     rintro _ ⟨x, rfl, hx⟩
     rw [inRange_u16] at hx
     exact ⟨.short (BitVec.ofInt 16 x), ⟨_, rfl⟩, by simp only [valU16, toNat_ofInt16 x hx], rfl⟩)
@@ -116,7 +119,7 @@ theorem exact_u16 (cx : SnbtCarrier) : Exact cx (.int .u16) clsU16 :=
 /-- `i32`: the integers of its range -/
 def clsI32 : Cls := Cls.base okI32 valI32 (fun _ => 2) (fun v => ∃ x : Int, v = .int .i32 x ∧ IK.InRange .i32 x) (fun _ => 3)
 theorem exact_i32 (cx : SnbtCarrier) : Exact cx (.int .i32) clsI32 :=
-  (elem_i32 cx).toExact _ _ (by rintro _ ⟨v, rfl⟩; simp [NBT.WF]) (by
+  (elem_i32 cx).toExact _ _ (by rintro _ ⟨v, rfl⟩; simp [NBT.WF]) (by rintro _ ⟨v, rfl⟩; simp [S15]) (by
     rintro _ ⟨x, rfl, hx⟩
     rw [inRange_i32] at hx
     exact ⟨.int (BitVec.ofInt 32 x), ⟨_, rfl⟩, by simp only [valI32, toInt_ofInt32 x hx], rfl⟩)
@@ -124,7 +127,7 @@ theorem exact_i32 (cx : SnbtCarrier) : Exact cx (.int .i32) clsI32 :=
 /-- `u32`: the integers of its range -/
 def clsU32 : Cls := Cls.base okU32 valU32 (fun _ => 2) (fun v => ∃ x : Int, v = .int .u32 x ∧ IK.InRange .u32 x) (fun _ => 3)
 theorem exact_u32 (cx : SnbtCarrier) : Exact cx (.int .u32) clsU32 :=
-  (elem_u32 cx).toExact _ _ (by rintro _ ⟨v, rfl⟩; simp [NBT.WF]) (by
+  (elem_u32 cx).toExact _ _ (by rintro _ ⟨v, rfl⟩; simp [NBT.WF]) (by rintro _ ⟨v, rfl⟩; simp [S15]) (by
     rintro _ ⟨x, rfl, hx⟩
     rw [inRange_u32] at hx
     exact ⟨.int (BitVec.ofInt 32 x), ⟨_, rfl⟩, by simp only [valU32, toNat_ofInt32 x hx], rfl⟩)
@@ -132,7 +135,7 @@ theorem exact_u32 (cx : SnbtCarrier) : Exact cx (.int .u32) clsU32 :=
 /-- `i64`: the integers of its range -/
 def clsI64 : Cls := Cls.base okI64 valI64 (fun _ => 2) (fun v => ∃ x : Int, v = .int .i64 x ∧ IK.InRange .i64 x) (fun _ => 4)
 theorem exact_i64 (cx : SnbtCarrier) : Exact cx (.int .i64) clsI64 :=
-  (elem_i64 cx).toExact _ _ (by rintro _ ⟨v, rfl⟩; simp [NBT.WF]) (by
+  (elem_i64 cx).toExact _ _ (by rintro _ ⟨v, rfl⟩; simp [NBT.WF]) (by rintro _ ⟨v, rfl⟩; simp [S15]) (by
     rintro _ ⟨x, rfl, hx⟩
     rw [inRange_i64] at hx
     exact ⟨.long (BitVec.ofInt 64 x), ⟨_, rfl⟩, by simp only [valI64, toInt_ofInt64 x hx], rfl⟩)
@@ -140,14 +143,14 @@ theorem exact_i64 (cx : SnbtCarrier) : Exact cx (.int .i64) clsI64 :=
 /-- `u64`: the integers of its range -/
 def clsU64 : Cls := Cls.base okU64 valU64 (fun _ => 2) (fun v => ∃ x : Int, v = .int .u64 x ∧ IK.InRange .u64 x) (fun _ => 4)
 theorem exact_u64 (cx : SnbtCarrier) : Exact cx (.int .u64) clsU64 :=
-  (elem_u64 cx).toExact _ _ (by rintro _ ⟨v, rfl⟩; simp [NBT.WF]) (by
+  (elem_u64 cx).toExact _ _ (by rintro _ ⟨v, rfl⟩; simp [NBT.WF]) (by rintro _ ⟨v, rfl⟩; simp [S15]) (by
     rintro _ ⟨x, rfl, hx⟩
     rw [inRange_u64] at hx
     exact ⟨.long (BitVec.ofInt 64 x), ⟨_, rfl⟩, by simp only [valU64, toNat_ofInt64 x hx], rfl⟩)
 
 def clsBool : Cls := Cls.base okBool valBool (fun _ => 2) (fun v => ∃ b, v = .bool b) (fun _ => 1)
 theorem exact_bool (cx : SnbtCarrier) : Exact cx .bool clsBool :=
-  (elem_bool cx).toExact _ _ (by rintro _ (rfl | rfl) <;> simp [NBT.WF]) (by
+  (elem_bool cx).toExact _ _ (by rintro _ (rfl | rfl) <;> simp [NBT.WF]) (by rintro _ (rfl | rfl) <;> simp [S15]) (by
     rintro _ ⟨b, rfl⟩
     cases b
     · exact ⟨.byte 0, Or.inl rfl, rfl, rfl⟩
@@ -156,17 +159,17 @@ theorem exact_bool (cx : SnbtCarrier) : Exact cx .bool clsBool :=
 /-- `float32` / `float64`: every bit pattern -/
 def clsF32 : Cls := Cls.base okF32 valF32 (fun _ => 2) (fun v => ∃ b, v = .f32 b) (fun _ => 5)
 theorem exact_f32 (cx : SnbtCarrier) : Exact cx .f32 clsF32 :=
-  (elem_f32 cx).toExact _ _ (by rintro _ ⟨v, rfl⟩; simp [NBT.WF]) (by
+  (elem_f32 cx).toExact _ _ (by rintro _ ⟨v, rfl⟩; simp [NBT.WF]) (by rintro _ ⟨v, rfl⟩; simp [S15]) (by
     rintro _ ⟨b, rfl⟩; exact ⟨.float b, ⟨_, rfl⟩, rfl, rfl⟩)
 def clsF64 : Cls := Cls.base okF64 valF64 (fun _ => 2) (fun v => ∃ b, v = .f64 b) (fun _ => 6)
 theorem exact_f64 (cx : SnbtCarrier) : Exact cx .f64 clsF64 :=
-  (elem_f64 cx).toExact _ _ (by rintro _ ⟨v, rfl⟩; simp [NBT.WF]) (by
+  (elem_f64 cx).toExact _ _ (by rintro _ ⟨v, rfl⟩; simp [NBT.WF]) (by rintro _ ⟨v, rfl⟩; simp [S15]) (by
     rintro _ ⟨b, rfl⟩; exact ⟨.double b, ⟨_, rfl⟩, rfl, rfl⟩)
 
 /-- `string`: at most 32767 bytes -/
 def clsStr : Cls := Cls.base okStr valStr (fun _ => 2) (fun v => ∃ s, v = .str s ∧ s.length < 32768) (fun _ => 8)
 theorem exact_str (cx : SnbtCarrier) : Exact cx .str clsStr :=
-  (elem_str cx).toExact _ _ (by rintro _ ⟨s, rfl, hs⟩; simp only [NBT.WF]; omega) (by
+  (elem_str cx).toExact _ _ (by rintro _ ⟨s, rfl, hs⟩; simp only [NBT.WF]; omega) (by rintro _ ⟨s, rfl, hs⟩; simpa [S15] using hs) (by
     rintro _ ⟨s, rfl, hs⟩; exact ⟨.string s, ⟨_, rfl, hs⟩, rfl, rfl⟩)
 
 theorem map_ofInt_i8 : ∀ xs : List Int, (∀ x ∈ xs, IK.InRange .i8 x) →
@@ -220,7 +223,7 @@ theorem map_ofBool : ∀ bs : List Bool,
 
 def clsBytesI8 : Cls := Cls.base okBytesI8 valBytesI8 (fun _ => 3) (fun v => ∃ xs : List Int, v = .slice (.int .i8) xs.isEmpty (xs.map (GoVal.int .i8)) ∧ xs.length < 2147483648 ∧ ∀ x ∈ xs, IK.InRange .i8 x) (fun _ => 7)
 theorem exact_bytes_i8 (cx : SnbtCarrier) : Exact cx (.slice (.int .i8)) clsBytesI8 :=
-  (elem_bytes_i8 cx).toExact _ _ (by rintro _ ⟨xs, rfl, hl⟩; simp only [NBT.WF]; omega) (by
+  (elem_bytes_i8 cx).toExact _ _ (by rintro _ ⟨xs, rfl, hl⟩; simp only [NBT.WF]; omega) (by rintro _ ⟨xs, rfl, hl⟩; simp [S15]) (by
     rintro _ ⟨xs, rfl, hl, hr⟩
     refine ⟨.byteArray (xs.map (BitVec.ofInt 8)), ⟨_, rfl, by simpa using hl, fun _ _ => trivial⟩, ?_, rfl⟩
     simp only [valBytesI8, map_ofInt_i8 xs hr]
@@ -228,7 +231,7 @@ theorem exact_bytes_i8 (cx : SnbtCarrier) : Exact cx (.slice (.int .i8)) clsByte
 
 def clsBytesU8 : Cls := Cls.base okBytesU8 valBytesU8 (fun _ => 3) (fun v => ∃ xs : List Int, v = .slice (.int .u8) false (xs.map (GoVal.int .u8)) ∧ xs.length < 2147483648 ∧ ∀ x ∈ xs, IK.InRange .u8 x) (fun _ => 7)
 theorem exact_bytes_u8 (cx : SnbtCarrier) : Exact cx (.slice (.int .u8)) clsBytesU8 :=
-  (elem_bytes_u8 cx).toExact _ _ (by rintro _ ⟨xs, rfl, hl⟩; simp only [NBT.WF]; omega) (by
+  (elem_bytes_u8 cx).toExact _ _ (by rintro _ ⟨xs, rfl, hl⟩; simp only [NBT.WF]; omega) (by rintro _ ⟨xs, rfl, hl⟩; simp [S15]) (by
     rintro _ ⟨xs, rfl, hl, hr⟩
     refine ⟨.byteArray (xs.map (BitVec.ofInt 8)), ⟨_, rfl, by simpa using hl, fun _ _ => trivial⟩, ?_, rfl⟩
     simp only [valBytesU8, map_ofInt_u8 xs hr]
@@ -236,7 +239,7 @@ theorem exact_bytes_u8 (cx : SnbtCarrier) : Exact cx (.slice (.int .u8)) clsByte
 
 def clsBytesBool : Cls := Cls.base okBytesBool valBytesBool (fun _ => 3) (fun v => ∃ bs : List Bool, v = .slice .bool bs.isEmpty (bs.map GoVal.bool) ∧ bs.length < 2147483648) (fun _ => 7)
 theorem exact_bytes_bool (cx : SnbtCarrier) : Exact cx (.slice (.bool)) clsBytesBool :=
-  (elem_bytes_bool cx).toExact _ _ (by rintro _ ⟨xs, rfl, hl⟩; simp only [NBT.WF]; omega) (by
+  (elem_bytes_bool cx).toExact _ _ (by rintro _ ⟨xs, rfl, hl⟩; simp only [NBT.WF]; omega) (by rintro _ ⟨xs, rfl, hl⟩; simp [S15]) (by
     rintro _ ⟨bs, rfl, hl⟩
     refine ⟨.byteArray (bs.map fun b => if b then (1 : BitVec 8) else 0), ⟨_, rfl, by simpa using hl, ?_⟩, ?_, rfl⟩
     · intro b hb
@@ -247,28 +250,28 @@ theorem exact_bytes_bool (cx : SnbtCarrier) : Exact cx (.slice (.bool)) clsBytes
 
 def clsNumsI32 : Cls := Cls.base okNumsI32 valNumsI32 (fun _ => 3) (fun v => ∃ xs : List Int, v = .slice (.int .i32) false (xs.map (GoVal.int .i32)) ∧ xs.length < 2147483648 ∧ ∀ x ∈ xs, IK.InRange .i32 x) (fun _ => 11)
 theorem exact_nums_i32 (cx : SnbtCarrier) : Exact cx (.slice (.int .i32)) clsNumsI32 :=
-  (elem_nums_i32 cx).toExact _ _ (by rintro _ ⟨xs, rfl, hl⟩; simp only [NBT.WF]; omega) (by
+  (elem_nums_i32 cx).toExact _ _ (by rintro _ ⟨xs, rfl, hl⟩; simp only [NBT.WF]; omega) (by rintro _ ⟨xs, rfl, hl⟩; simp [S15]) (by
     rintro _ ⟨xs, rfl, hl, hr⟩
     refine ⟨.intArray (xs.map (BitVec.ofInt 32)), ⟨_, rfl, by simpa using hl⟩, ?_, rfl⟩
     simp only [valNumsI32, map_ofInt_i32 xs hr])
 
 def clsNumsU32 : Cls := Cls.base okNumsU32 valNumsU32 (fun _ => 3) (fun v => ∃ xs : List Int, v = .slice (.int .u32) false (xs.map (GoVal.int .u32)) ∧ xs.length < 2147483648 ∧ ∀ x ∈ xs, IK.InRange .u32 x) (fun _ => 11)
 theorem exact_nums_u32 (cx : SnbtCarrier) : Exact cx (.slice (.int .u32)) clsNumsU32 :=
-  (elem_nums_u32 cx).toExact _ _ (by rintro _ ⟨xs, rfl, hl⟩; simp only [NBT.WF]; omega) (by
+  (elem_nums_u32 cx).toExact _ _ (by rintro _ ⟨xs, rfl, hl⟩; simp only [NBT.WF]; omega) (by rintro _ ⟨xs, rfl, hl⟩; simp [S15]) (by
     rintro _ ⟨xs, rfl, hl, hr⟩
     refine ⟨.intArray (xs.map (BitVec.ofInt 32)), ⟨_, rfl, by simpa using hl⟩, ?_, rfl⟩
     simp only [valNumsU32, map_ofInt_u32 xs hr])
 
 def clsNumsI64 : Cls := Cls.base okNumsI64 valNumsI64 (fun _ => 3) (fun v => ∃ xs : List Int, v = .slice (.int .i64) false (xs.map (GoVal.int .i64)) ∧ xs.length < 2147483648 ∧ ∀ x ∈ xs, IK.InRange .i64 x) (fun _ => 12)
 theorem exact_nums_i64 (cx : SnbtCarrier) : Exact cx (.slice (.int .i64)) clsNumsI64 :=
-  (elem_nums_i64 cx).toExact _ _ (by rintro _ ⟨xs, rfl, hl⟩; simp only [NBT.WF]; omega) (by
+  (elem_nums_i64 cx).toExact _ _ (by rintro _ ⟨xs, rfl, hl⟩; simp only [NBT.WF]; omega) (by rintro _ ⟨xs, rfl, hl⟩; simp [S15]) (by
     rintro _ ⟨xs, rfl, hl, hr⟩
     refine ⟨.longArray (xs.map (BitVec.ofInt 64)), ⟨_, rfl, by simpa using hl⟩, ?_, rfl⟩
     simp only [valNumsI64, map_ofInt_i64 xs hr])
 
 def clsNumsU64 : Cls := Cls.base okNumsU64 valNumsU64 (fun _ => 3) (fun v => ∃ xs : List Int, v = .slice (.int .u64) false (xs.map (GoVal.int .u64)) ∧ xs.length < 2147483648 ∧ ∀ x ∈ xs, IK.InRange .u64 x) (fun _ => 12)
 theorem exact_nums_u64 (cx : SnbtCarrier) : Exact cx (.slice (.int .u64)) clsNumsU64 :=
-  (elem_nums_u64 cx).toExact _ _ (by rintro _ ⟨xs, rfl, hl⟩; simp only [NBT.WF]; omega) (by
+  (elem_nums_u64 cx).toExact _ _ (by rintro _ ⟨xs, rfl, hl⟩; simp only [NBT.WF]; omega) (by rintro _ ⟨xs, rfl, hl⟩; simp [S15]) (by
     rintro _ ⟨xs, rfl, hl, hr⟩
     refine ⟨.longArray (xs.map (BitVec.ofInt 64)), ⟨_, rfl, by simpa using hl⟩, ?_, rfl⟩
     simp only [valNumsU64, map_ofInt_u64 xs hr])
@@ -277,21 +280,21 @@ theorem exact_nums_u64 (cx : SnbtCarrier) : Exact cx (.slice (.int .u64)) clsNum
 
 def clsArrBytesI8 (n : Nat) : Cls := Cls.base (okArrBytesI8 n) valArrBytesI8 (fun _ => 3) (fun v => ∃ xs : List Int, v = .array (.int .i8) (xs.map (GoVal.int .i8)) ∧ xs.length = n ∧ n < 2147483648 ∧ ∀ x ∈ xs, IK.InRange .i8 x) (fun _ => 7)
 theorem exact_arr_bytes_i8 (cx : SnbtCarrier) (n : Nat) : Exact cx (.array n (.int .i8)) (clsArrBytesI8 n) :=
-  (elem_arr_bytes_i8 cx n).toExact _ _ (by rintro _ ⟨xs, rfl, hn, hl⟩; simp only [NBT.WF]; omega) (by
+  (elem_arr_bytes_i8 cx n).toExact _ _ (by rintro _ ⟨xs, rfl, hn, hl⟩; simp only [NBT.WF]; omega) (by rintro _ ⟨xs, rfl, hn, hl⟩; simp [S15]) (by
     rintro _ ⟨xs, rfl, hn, hl, hr⟩
     refine ⟨.byteArray (xs.map (BitVec.ofInt 8)), ⟨_, rfl, by simpa using hn, hl, fun _ _ => trivial⟩, ?_, rfl⟩
     simp only [valArrBytesI8, map_ofInt_i8 xs hr])
 
 def clsArrBytesU8 (n : Nat) : Cls := Cls.base (okArrBytesU8 n) valArrBytesU8 (fun _ => 3) (fun v => ∃ xs : List Int, v = .array (.int .u8) (xs.map (GoVal.int .u8)) ∧ xs.length = n ∧ n < 2147483648 ∧ ∀ x ∈ xs, IK.InRange .u8 x) (fun _ => 7)
 theorem exact_arr_bytes_u8 (cx : SnbtCarrier) (n : Nat) : Exact cx (.array n (.int .u8)) (clsArrBytesU8 n) :=
-  (elem_arr_bytes_u8 cx n).toExact _ _ (by rintro _ ⟨xs, rfl, hn, hl⟩; simp only [NBT.WF]; omega) (by
+  (elem_arr_bytes_u8 cx n).toExact _ _ (by rintro _ ⟨xs, rfl, hn, hl⟩; simp only [NBT.WF]; omega) (by rintro _ ⟨xs, rfl, hn, hl⟩; simp [S15]) (by
     rintro _ ⟨xs, rfl, hn, hl, hr⟩
     refine ⟨.byteArray (xs.map (BitVec.ofInt 8)), ⟨_, rfl, by simpa using hn, hl, fun _ _ => trivial⟩, ?_, rfl⟩
     simp only [valArrBytesU8, map_ofInt_u8 xs hr])
 
 def clsArrBytesBool (n : Nat) : Cls := Cls.base (okArrBytesBool n) valArrBytesBool (fun _ => 3) (fun v => ∃ bs : List Bool, v = .array .bool (bs.map GoVal.bool) ∧ bs.length = n ∧ n < 2147483648) (fun _ => 7)
 theorem exact_arr_bytes_bool (cx : SnbtCarrier) (n : Nat) : Exact cx (.array n (.bool)) (clsArrBytesBool n) :=
-  (elem_arr_bytes_bool cx n).toExact _ _ (by rintro _ ⟨xs, rfl, hn, hl⟩; simp only [NBT.WF]; omega) (by
+  (elem_arr_bytes_bool cx n).toExact _ _ (by rintro _ ⟨xs, rfl, hn, hl⟩; simp only [NBT.WF]; omega) (by rintro _ ⟨xs, rfl, hn, hl⟩; simp [S15]) (by
     rintro _ ⟨bs, rfl, hn, hl⟩
     refine ⟨.byteArray (bs.map fun b => if b then (1 : BitVec 8) else 0), ⟨_, rfl, by simpa using hn, hl, ?_⟩, ?_, rfl⟩
     · intro b hb
@@ -301,44 +304,59 @@ theorem exact_arr_bytes_bool (cx : SnbtCarrier) (n : Nat) : Exact cx (.array n (
 
 def clsArrNumsI32 (n : Nat) : Cls := Cls.base (okArrNumsI32 n) valArrNumsI32 (fun _ => 3) (fun v => ∃ xs : List Int, v = .array (.int .i32) (xs.map (GoVal.int .i32)) ∧ xs.length = n ∧ n < 2147483648 ∧ ∀ x ∈ xs, IK.InRange .i32 x) (fun _ => 11)
 theorem exact_arr_nums_i32 (cx : SnbtCarrier) (n : Nat) : Exact cx (.array n (.int .i32)) (clsArrNumsI32 n) :=
-  (elem_arr_nums_i32 cx n).toExact _ _ (by rintro _ ⟨xs, rfl, hn, hl⟩; simp only [NBT.WF]; omega) (by
+  (elem_arr_nums_i32 cx n).toExact _ _ (by rintro _ ⟨xs, rfl, hn, hl⟩; simp only [NBT.WF]; omega) (by rintro _ ⟨xs, rfl, hn, hl⟩; simp [S15]) (by
     rintro _ ⟨xs, rfl, hn, hl, hr⟩
     refine ⟨.intArray (xs.map (BitVec.ofInt 32)), ⟨_, rfl, by simpa using hn, hl⟩, ?_, rfl⟩
     simp only [valArrNumsI32, map_ofInt_i32 xs hr])
 
 def clsArrNumsU32 (n : Nat) : Cls := Cls.base (okArrNumsU32 n) valArrNumsU32 (fun _ => 3) (fun v => ∃ xs : List Int, v = .array (.int .u32) (xs.map (GoVal.int .u32)) ∧ xs.length = n ∧ n < 2147483648 ∧ ∀ x ∈ xs, IK.InRange .u32 x) (fun _ => 11)
 theorem exact_arr_nums_u32 (cx : SnbtCarrier) (n : Nat) : Exact cx (.array n (.int .u32)) (clsArrNumsU32 n) :=
-  (elem_arr_nums_u32 cx n).toExact _ _ (by rintro _ ⟨xs, rfl, hn, hl⟩; simp only [NBT.WF]; omega) (by
+  (elem_arr_nums_u32 cx n).toExact _ _ (by rintro _ ⟨xs, rfl, hn, hl⟩; simp only [NBT.WF]; omega) (by rintro _ ⟨xs, rfl, hn, hl⟩; simp [S15]) (by
     rintro _ ⟨xs, rfl, hn, hl, hr⟩
     refine ⟨.intArray (xs.map (BitVec.ofInt 32)), ⟨_, rfl, by simpa using hn, hl⟩, ?_, rfl⟩
     simp only [valArrNumsU32, map_ofInt_u32 xs hr])
 
 def clsArrNumsI64 (n : Nat) : Cls := Cls.base (okArrNumsI64 n) valArrNumsI64 (fun _ => 3) (fun v => ∃ xs : List Int, v = .array (.int .i64) (xs.map (GoVal.int .i64)) ∧ xs.length = n ∧ n < 2147483648 ∧ ∀ x ∈ xs, IK.InRange .i64 x) (fun _ => 12)
 theorem exact_arr_nums_i64 (cx : SnbtCarrier) (n : Nat) : Exact cx (.array n (.int .i64)) (clsArrNumsI64 n) :=
-  (elem_arr_nums_i64 cx n).toExact _ _ (by rintro _ ⟨xs, rfl, hn, hl⟩; simp only [NBT.WF]; omega) (by
+  (elem_arr_nums_i64 cx n).toExact _ _ (by rintro _ ⟨xs, rfl, hn, hl⟩; simp only [NBT.WF]; omega) (by rintro _ ⟨xs, rfl, hn, hl⟩; simp [S15]) (by
     rintro _ ⟨xs, rfl, hn, hl, hr⟩
     refine ⟨.longArray (xs.map (BitVec.ofInt 64)), ⟨_, rfl, by simpa using hn, hl⟩, ?_, rfl⟩
     simp only [valArrNumsI64, map_ofInt_i64 xs hr])
 
 def clsArrNumsU64 (n : Nat) : Cls := Cls.base (okArrNumsU64 n) valArrNumsU64 (fun _ => 3) (fun v => ∃ xs : List Int, v = .array (.int .u64) (xs.map (GoVal.int .u64)) ∧ xs.length = n ∧ n < 2147483648 ∧ ∀ x ∈ xs, IK.InRange .u64 x) (fun _ => 12)
 theorem exact_arr_nums_u64 (cx : SnbtCarrier) (n : Nat) : Exact cx (.array n (.int .u64)) (clsArrNumsU64 n) :=
-  (elem_arr_nums_u64 cx n).toExact _ _ (by rintro _ ⟨xs, rfl, hn, hl⟩; simp only [NBT.WF]; omega) (by
+  (elem_arr_nums_u64 cx n).toExact _ _ (by rintro _ ⟨xs, rfl, hn, hl⟩; simp only [NBT.WF]; omega) (by rintro _ ⟨xs, rfl, hn, hl⟩; simp [S15]) (by
     rintro _ ⟨xs, rfl, hn, hl, hr⟩
     refine ⟨.longArray (xs.map (BitVec.ofInt 64)), ⟨_, rfl, by simpa using hn, hl⟩, ?_, rfl⟩
     simp only [valArrNumsU64, map_ofInt_u64 xs hr])
+
+mutual
+  theorem small_s15 : ∀ t : NBT, GoMC.Lemmas.DynBT.Small t → S15 t
+    | .string x, h => by simpa [S15, GoMC.Lemmas.DynBT.Small] using h
+    | .list _ xs, h => by simp only [S15]; exact smallList_s15 xs (by simpa [GoMC.Lemmas.DynBT.Small] using h)
+    | .compound kvs, h => by simp only [S15]; exact smallKvs_s15 kvs (by simpa [GoMC.Lemmas.DynBT.Small] using h)
+    | .byte _, _ | .short _, _ | .int _, _ | .long _, _ | .float _, _ | .double _, _ | .byteArray _, _ | .intArray _, _
+    | .longArray _, _ => by simp [S15]
+  theorem smallList_s15 : ∀ xs : List NBT, GoMC.Lemmas.DynBT.SmallList xs → S15List xs
+    | [], _ => trivial
+    | x :: xs, h => ⟨small_s15 x h.1, smallList_s15 xs h.2⟩
+  theorem smallKvs_s15 : ∀ kvs : List (Bytes × NBT), GoMC.Lemmas.DynBT.SmallKvs kvs → S15Kvs kvs
+    | [], _ => trivial
+    | (k, v) :: kvs, h => ⟨by have := h.1; omega, small_s15 v h.2.1, smallKvs_s15 kvs h.2.2⟩
+end
 
 /-! the carriers: a value is canonical when it holds the payload of a well-formed tree -/
 
 def clsRaw : Cls := Cls.base okRaw valRaw (fun _ => 1) (fun v => ∃ t : NBT, (t.WF ∧ S15 t) ∧ v = .raw t.tag (encPayload t))
   (fun v => match v with | .raw t _ => t | _ => 0)
 theorem exact_raw (cx : SnbtCarrier) : Exact cx .raw clsRaw :=
-  (rawExact cx).toElem.toExact _ _ (fun _ h => h.1) (by rintro _ ⟨t, ht, rfl⟩; exact ⟨t, ht, rfl, rfl⟩)
+  (rawExact cx).toElem.toExact _ _ (fun _ h => h.1) (fun _ h => h.2) (by rintro _ ⟨t, ht, rfl⟩; exact ⟨t, ht, rfl, rfl⟩)
 
 def clsDyn : Cls := Cls.base okDyn valDyn (fun _ => 1)
   (fun v => ∃ t : NBT, (t.WF ∧ GoMC.Lemmas.DynBT.Small t) ∧ v = .dyn (GoMC.Lemmas.DynBT.toVal t))
   (fun v => match v with | .dyn d => d.tag | _ => 0)
 theorem exact_dyn (cx : SnbtCarrier) : Exact cx .dyn clsDyn :=
-  (dynExact cx).toElem.toExact _ _ (fun _ h => h.1) (by
+  (dynExact cx).toElem.toExact _ _ (fun _ h => h.1) (fun _ h => small_s15 _ h.2) (by
     rintro _ ⟨t, ht, rfl⟩; exact ⟨t, ht, rfl, (GoMC.Lemmas.DynBT.tag_toVal t).symm⟩)
 
 /-! ### slices written as TagList -/
@@ -363,6 +381,15 @@ def Cls.slice (c : GoType) (k : Cls) : Cls where
     (∀ x ∈ xs, ∀ y ∈ xs, k.tagV x = k.tagV y)
   tagV := fun _ => 9
 
+theorem s15List_of : ∀ {ts : List NBT}, (∀ t ∈ ts, S15 t) → S15List ts
+  | [], _ => trivial
+  | t :: ts, h => ⟨h t List.mem_cons_self, s15List_of (fun t' ht' => h t' (List.mem_cons_of_mem _ ht'))⟩
+
+theorem s15Kvs_of : ∀ {kvs : List (Bytes × NBT)}, (∀ kv ∈ kvs, kv.1.length < 32768 ∧ S15 kv.2) → S15Kvs kvs
+  | [], _ => trivial
+  | (k, v) :: kvs, h => ⟨(h (k, v) List.mem_cons_self).1, (h (k, v) List.mem_cons_self).2,
+      s15Kvs_of (fun kv hkv => h kv (List.mem_cons_of_mem _ hkv))⟩
+
 theorem wfList_of {e : Byte} : ∀ {ts : List NBT}, (∀ t ∈ ts, t.tag = e ∧ t.WF) → NBT.WFList e ts
   | [], _ => trivial
   | t :: ts, h => ⟨(h t List.mem_cons_self).1, (h t List.mem_cons_self).2,
@@ -382,6 +409,118 @@ theorem onto_list (k : Cls) (honto : ∀ v, k.canon v → ∃ t, k.ok t ∧ k.va
     · exact ht
     · exact hoks t' h'
 
+theorem slice_reads {cx : SnbtCarrier} {c : GoType} {k : Cls} (hx : Exact cx c k) :
+    ∀ d fuel t, (Cls.slice c k).ok t →
+      R (cost t + (Cls.slice c k).extra ≤ fuel) (unmarshal cx d fuel (.slice c) (GoType.slice c).zero t.tag) (encPayload t)
+        ((Cls.slice c k).val t) := by
+  intro d fuel t hok
+  cases t with
+  | list e ts =>
+    obtain ⟨hwf, hoks, hemp⟩ := hok
+    have hwf' := hwf
+    simp only [NBT.WF, two31] at hwf'
+    obtain ⟨hlen, hnz, hle, hwfl⟩ := hwf'
+    cases fuel with
+    | zero => unfold unmarshal; exact R_fail (by simp [cost]) _ _
+    | succ f =>
+      have hnz' : e ≠ 0#8 ∨ ts.length = 0 := by
+        rcases hnz with h | h
+        · right; simp [h]
+        · exact Or.inl h
+      unfold unmarshal
+      have h9 : (9 : BitVec 8).toNat = 9 := rfl
+      simp only [NBT.tag, NBT.tagList, umSlice, h9, encPayload, Cls.slice]
+      have : e :: beBytes 4 ts.length ++ encList ts = (e :: beBytes 4 ts.length) ++ (encList ts ++ []) := by simp
+      rw [this]
+      apply R_bind (R_listHeader _ e ts.length hle hlen hnz')
+      simp only
+      apply R_bind
+      · apply R_rdRepeat
+        intro t ht
+        have := hx.reads d f t (hoks t ht)
+        rw [(wfList_mem hwfl t ht).1] at this
+        exact R_mono (fun h => by
+          have := cost_le_costList ht
+          simp only [cost] at h; omega) this
+      · exact R_pure _ _
+  | _ => exact hok.elim
+
+theorem slice_marshal {cx : SnbtCarrier} {c : GoType} {k : Cls} (hx : Exact cx c k) (f : Nat) (e : Byte) (ts : List NBT)
+    (hwf : (NBT.list e ts).WF) (hoks : ∀ t ∈ ts, k.ok t) (hemp : ts = [] → e = tagOfType c)
+    (hf : (Cls.slice c k).need (.list e ts) ≤ f) :
+    Go.marshal cx f ((Cls.slice c k).inner (.list e ts)) (NBT.list e ts).tag = Res.ok (encPayload (.list e ts)) := by
+  have hok : (Cls.slice c k).ok (.list e ts) := ⟨hwf, hoks, hemp⟩
+  revert hok hf
+  generalize (NBT.list e ts) = t
+  intro hf hok
+  revert t
+  intro t hf hok
+  cases t with
+  | list e ts =>
+    obtain ⟨hwf, hoks, hemp⟩ := hok
+    have hwf' := hwf
+    simp only [NBT.WF, two31] at hwf'
+    obtain ⟨hlen, hnz, hle, hwfl⟩ := hwf'
+    simp only [Cls.slice] at hf
+    obtain ⟨f', rfl⟩ : ∃ f', f = f' + 2 := ⟨f - 2, by omega⟩
+    have hsl : ∀ xs, GoVal.isCarrier (.slice c false xs) = false := fun _ => rfl
+    rw [show (NBT.list e ts).tag = 9 from rfl]
+    simp only [Cls.slice]
+    unfold Go.marshal
+    rw [hsl]
+    simp only [Bool.false_eq_true, if_false]
+    cases ts with
+    | nil =>
+      have h9 : (9 : BitVec 8).toNat = 9 := rfl
+      simp only [List.map_nil, writeValue, h9, resMapM, resFlatten, List.flatten_nil, List.append_nil,
+        List.length_nil, encPayload, encList, hemp rfl, beN_eq]
+    | cons t0 ts' =>
+      have hn0 : k.need t0 ≤ f' := by simp only [needMax] at hf; omega
+      have hg0 := hx.getTag f' t0 (hoks t0 (List.mem_cons_self)) hn0
+      have ht0 := wfList_mem hwfl t0 (List.mem_cons_self)
+      rw [List.map_cons, writeValue_list_slice, hg0]
+      have hm : resMapM (elemEnc (getTagType cx f') (Go.marshal cx f') t0.tag) ((t0 :: ts').map k.val)
+          = Res.ok ((t0 :: ts').map encPayload) := by
+        apply resMapM_map_ok
+        intro t ht
+        have hnt : k.need t ≤ f' := by have := le_needMax (need := k.need) ht; omega
+        unfold elemEnc
+        simp only [hx.getTag f' t (hoks t ht) hnt, (wfList_mem hwfl t ht).1, ht0.1, ne_eq, not_true_eq_false, if_false]
+        have := hx.marshal f' t (hoks t ht) hnt
+        rw [(wfList_mem hwfl t ht).1] at this
+        exact this
+      rw [← List.map_cons, hm]
+      simp only [resFlatten, encPayload, ht0.1, beN_eq, List.length_map, encList_eq_flatten]
+  | _ => exact hok.elim
+
+theorem slice_onto {cx : SnbtCarrier} {c : GoType} {k : Cls} (hx : Exact cx c k) (hstat12 : (tagOfType c).toNat ≤ 12) :
+    ∀ v, (Cls.slice c k).canon v → ∃ t, (Cls.slice c k).ok t ∧ (Cls.slice c k).val t = v ∧ t.tag = (Cls.slice c k).tagV v := by
+  rintro v ⟨xs, rfl, hlen, hcan, htags⟩
+  obtain ⟨ts, hts, hoks, htg⟩ := onto_list k hx.onto xs hcan
+  have hl : ts.length = xs.length := by rw [← hts, List.length_map]
+  cases ts with
+  | nil =>
+    refine ⟨.list (tagOfType c) [], ⟨?_, (fun _ h => by cases h), fun _ => rfl⟩, ?_, rfl⟩
+    · simp [NBT.WF, NBT.WFList, hstat12]
+    · simp only [Cls.slice]; rw [← hts]
+  | cons t0 ts' =>
+    have hsame : ∀ t ∈ t0 :: ts', t.tag = t0.tag := by
+      intro t ht
+      have h1 : t.tag ∈ (t0 :: ts').map NBT.tag := List.mem_map_of_mem ht
+      rw [htg] at h1
+      obtain ⟨x, hx1, hx2⟩ := List.mem_map.mp h1
+      have h0 : t0.tag ∈ (t0 :: ts').map NBT.tag := List.mem_map_of_mem List.mem_cons_self
+      rw [htg] at h0
+      obtain ⟨y, hy1, hy2⟩ := List.mem_map.mp h0
+      rw [← hx2, ← hy2]
+      exact htags x hx1 y hy1
+    refine ⟨.list t0.tag (t0 :: ts'), ⟨?_, hoks, fun h => by cases h⟩, ?_, rfl⟩
+    · simp only [NBT.WF, two31]
+      refine ⟨by rw [hl]; exact hlen, Or.inr (tag_not_magic t0).1, NBT.tag_le t0, ?_⟩
+      exact wfList_of (fun t ht => ⟨hsame t ht, hx.wf t (hoks t ht)⟩)
+    · simp only [Cls.slice]; rw [hts]
+
+
 theorem exact_slice {cx : SnbtCarrier} {c : GoType} {k : Cls} (hx : Exact cx c k)
     (hseq : ∀ t, k.ok t → (k.inner t).isCarrier = true ∨ arrTag t.tag = 9)
     (hstat : arrTag (tagOfType c) = 9) (hstat12 : (tagOfType c).toNat ≤ 12) :
@@ -393,38 +532,12 @@ theorem exact_slice {cx : SnbtCarrier} {c : GoType} {k : Cls} (hx : Exact cx c k
     cases t with
     | list e ts => exact ht.1
     | _ => exact ht.elim
-  reads := by
-    intro d fuel t hok
+  s15 := by
+    intro t ht
     cases t with
-    | list e ts =>
-      obtain ⟨hwf, hoks, hemp⟩ := hok
-      have hwf' := hwf
-      simp only [NBT.WF, two31] at hwf'
-      obtain ⟨hlen, hnz, hle, hwfl⟩ := hwf'
-      cases fuel with
-      | zero => unfold unmarshal; exact R_fail (by simp [cost]) _ _
-      | succ f =>
-        have hnz' : e ≠ 0#8 ∨ ts.length = 0 := by
-          rcases hnz with h | h
-          · right; simp [h]
-          · exact Or.inl h
-        unfold unmarshal
-        have h9 : (9 : BitVec 8).toNat = 9 := rfl
-        simp only [NBT.tag, NBT.tagList, umSlice, h9, encPayload, Cls.slice]
-        have : e :: beBytes 4 ts.length ++ encList ts = (e :: beBytes 4 ts.length) ++ (encList ts ++ []) := by simp
-        rw [this]
-        apply R_bind (R_listHeader _ e ts.length hle hlen hnz')
-        simp only
-        apply R_bind
-        · apply R_rdRepeat
-          intro t ht
-          have := hx.reads d f t (hoks t ht)
-          rw [(wfList_mem hwfl t ht).1] at this
-          exact R_mono (fun h => by
-            have := cost_le_costList ht
-            simp only [cost] at h; omega) this
-        · exact R_pure _ _
-    | _ => exact hok.elim
+    | list e ts => simp only [S15]; exact s15List_of (fun t' ht' => hx.s15 t' (ht.2.1 t' ht'))
+    | _ => exact ht.elim
+  reads := slice_reads hx
   getTag := by
     intro f t hok hf
     cases t with
@@ -449,67 +562,9 @@ theorem exact_slice {cx : SnbtCarrier} {c : GoType} {k : Cls} (hx : Exact cx c k
   marshal := by
     intro f t hok hf
     cases t with
-    | list e ts =>
-      obtain ⟨hwf, hoks, hemp⟩ := hok
-      have hwf' := hwf
-      simp only [NBT.WF, two31] at hwf'
-      obtain ⟨hlen, hnz, hle, hwfl⟩ := hwf'
-      simp only [Cls.slice] at hf
-      obtain ⟨f', rfl⟩ : ∃ f', f = f' + 2 := ⟨f - 2, by omega⟩
-      have hsl : ∀ xs, GoVal.isCarrier (.slice c false xs) = false := fun _ => rfl
-      rw [show (NBT.list e ts).tag = 9 from rfl]
-      simp only [Cls.slice]
-      unfold Go.marshal
-      rw [hsl]
-      simp only [Bool.false_eq_true, if_false]
-      cases ts with
-      | nil =>
-        have h9 : (9 : BitVec 8).toNat = 9 := rfl
-        simp only [List.map_nil, writeValue, h9, resMapM, resFlatten, List.flatten_nil, List.append_nil,
-          List.length_nil, encPayload, encList, hemp rfl, beN_eq]
-      | cons t0 ts' =>
-        have hn0 : k.need t0 ≤ f' := by simp only [needMax] at hf; omega
-        have hg0 := hx.getTag f' t0 (hoks t0 (List.mem_cons_self)) hn0
-        have ht0 := wfList_mem hwfl t0 (List.mem_cons_self)
-        rw [List.map_cons, writeValue_list_slice, hg0]
-        have hm : resMapM (elemEnc (getTagType cx f') (Go.marshal cx f') t0.tag) ((t0 :: ts').map k.val)
-            = Res.ok ((t0 :: ts').map encPayload) := by
-          apply resMapM_map_ok
-          intro t ht
-          have hnt : k.need t ≤ f' := by have := le_needMax (need := k.need) ht; omega
-          unfold elemEnc
-          simp only [hx.getTag f' t (hoks t ht) hnt, (wfList_mem hwfl t ht).1, ht0.1, ne_eq, not_true_eq_false, if_false]
-          have := hx.marshal f' t (hoks t ht) hnt
-          rw [(wfList_mem hwfl t ht).1] at this
-          exact this
-        rw [← List.map_cons, hm]
-        simp only [resFlatten, encPayload, ht0.1, beN_eq, List.length_map, encList_eq_flatten]
+    | list e ts => exact slice_marshal hx f e ts hok.1 hok.2.1 hok.2.2 hf
     | _ => exact hok.elim
-  onto := by
-    rintro v ⟨xs, rfl, hlen, hcan, htags⟩
-    obtain ⟨ts, hts, hoks, htg⟩ := onto_list k hx.onto xs hcan
-    have hl : ts.length = xs.length := by rw [← hts, List.length_map]
-    cases ts with
-    | nil =>
-      refine ⟨.list (tagOfType c) [], ⟨?_, (fun _ h => by cases h), fun _ => rfl⟩, ?_, rfl⟩
-      · simp [NBT.WF, NBT.WFList, hstat12]
-      · simp only [Cls.slice]; rw [← hts]
-    | cons t0 ts' =>
-      have hsame : ∀ t ∈ t0 :: ts', t.tag = t0.tag := by
-        intro t ht
-        have h1 : t.tag ∈ (t0 :: ts').map NBT.tag := List.mem_map_of_mem ht
-        rw [htg] at h1
-        obtain ⟨x, hx1, hx2⟩ := List.mem_map.mp h1
-        have h0 : t0.tag ∈ (t0 :: ts').map NBT.tag := List.mem_map_of_mem List.mem_cons_self
-        rw [htg] at h0
-        obtain ⟨y, hy1, hy2⟩ := List.mem_map.mp h0
-        rw [← hx2, ← hy2]
-        exact htags x hx1 y hy1
-      refine ⟨.list t0.tag (t0 :: ts'), ⟨?_, hoks, fun h => by cases h⟩, ?_, rfl⟩
-      · simp only [NBT.WF, two31]
-        refine ⟨by rw [hl]; exact hlen, Or.inr (tag_not_magic t0).1, NBT.tag_le t0, ?_⟩
-        exact wfList_of (fun t ht => ⟨hsame t ht, hx.wf t (hoks t ht)⟩)
-      · simp only [Cls.slice]; rw [hts]
+  onto := slice_onto hx hstat12
 
 /-! ### string-keyed maps -/
 
@@ -583,6 +638,11 @@ theorem exact_map {cx : SnbtCarrier} {c : GoType} {k : Cls} (hx : Exact cx c k) 
     | compound kvs =>
       simp only [NBT.WF]
       exact wfKvs_of (fun kv hkv => ⟨by have := (ht.1 kv hkv).1; omega, hx.wf _ (ht.1 kv hkv).2⟩)
+    | _ => exact ht.elim
+  s15 := by
+    intro t ht
+    cases t with
+    | compound kvs => simp only [S15]; exact s15Kvs_of (fun kv hkv => ⟨(ht.1 kv hkv).1, hx.s15 _ (ht.1 kv hkv).2⟩)
     | _ => exact ht.elim
   reads := by
     intro d fuel t hok
@@ -686,6 +746,7 @@ theorem exact_ptr {cx : SnbtCarrier} {c : GoType} {k : Cls} (hx : Exact cx c k) 
   zeroTy := rfl
   needPos := by intro t _; simp [Cls.ptr]
   wf := hx.wf
+  s15 := hx.s15
   reads := by
     intro d fuel t hok
     cases fuel with
@@ -911,6 +972,36 @@ structure FSpec where
   ty : GoType
   oe : Bool
   cls : Cls
+  /-- the `,list` option: a typed array written (and read) as a TagList -/
+  asList : Bool := false
+
+/-- what the struct codec needs of a field's type and class: decoding the payload of `t` into a zero value of the
+type gives `k.val t`, and the encoder's step for the field — after the walk along the index path and the
+`omitempty` test — writes the entry `name : t`. For a field without options this is `Exact` (`FExact.ofExact`); for a
+`,list` field the typed array is re-tagged as a TagList (`fexact_listSlice`). -/
+structure FExact (cx : SnbtCarrier) (c : GoType) (asList : Bool) (k : Cls) : Prop where
+  zeroTy : c.zero.typeOf = c
+  reads : ∀ d fuel t, k.ok t → R (cost t + k.extra ≤ fuel) (unmarshal cx d fuel c c.zero t.tag) (encPayload t) (k.val t)
+  encField : ∀ (f : Nat) (Sf : GoVal) (fld : Fld) (t : NBT), k.ok t → k.need t ≤ f → fld.asList = asList →
+    fld.name.length < 32768 → walkEnc fld.index Sf = some (k.val t) → (fld.omitEmpty && isEmptyValue (k.val t)) = false →
+    fieldEnc (getTagType cx f) (Go.marshal cx f) Sf fld = Res.ok (t.tag :: encString fld.name ++ encPayload t)
+  wf : ∀ t, k.ok t → t.WF
+  s15 : ∀ t, k.ok t → S15 t
+  onto : ∀ v, k.canon v → ∃ t, k.ok t ∧ k.val t = v ∧ t.tag = k.tagV v
+
+theorem FExact.ofExact {cx : SnbtCarrier} {c : GoType} {k : Cls} (hx : Exact cx c k) : FExact cx c false k where
+  zeroTy := hx.zeroTy
+  reads := hx.reads
+  wf := hx.wf
+  s15 := hx.s15
+  onto := hx.onto
+  encField := by
+    intro f Sf fld t hokt hf hal hlen hw hemp
+    have ht0 : ¬ t.tag = 0 := (tag_not_magic t).1
+    have hl : ¬ fld.name.length > 32767 := by omega
+    simp only [fieldEnc, hw, hemp, hal, Bool.false_eq_true, if_false,
+      hx.getTag f t hokt hf, hx.marshal f t hokt hf, writeTag, ht0, hl]
+    simp only [encString, beN_eq, List.cons_append, List.append_assoc]
 
 def okFields : List FSpec → List (Bytes × NBT) → Prop
   | [], [] => True
@@ -957,11 +1048,62 @@ theorem partsOf_flatten : ∀ (sps : List FSpec) (kvs : List (Bytes × NBT)), ok
       simp only [List.flatten_cons, List.nil_append]
       exact partsOf_flatten sps ((k, t) :: kvs) h.2
 
+/-- a `,list` field of a typed-array slice type: the elements one by one in a TagList -/
+theorem fexact_listSlice {cx : SnbtCarrier} {c : GoType} {k : Cls} (hx : Exact cx c k)
+    (helem : ∀ t, k.ok t → (k.inner t).isCarrier = false ∧ (arrTag t.tag = 7 ∨ arrTag t.tag = 11 ∨ arrTag t.tag = 12))
+    (hstat : arrTag (tagOfType c) = 7 ∨ arrTag (tagOfType c) = 11 ∨ arrTag (tagOfType c) = 12)
+    (hstat12 : (tagOfType c).toNat ≤ 12) (hx0 : k.extra = 0) :
+    FExact cx (.slice c) true (Cls.slice c k) where
+  zeroTy := rfl
+  reads := slice_reads hx
+  wf := by
+    intro t ht
+    cases t with
+    | list e ts => exact ht.1
+    | _ => exact ht.elim
+  s15 := by
+    intro t ht
+    cases t with
+    | list e ts => simp only [S15]; exact s15List_of (fun t' ht' => hx.s15 t' (ht.2.1 t' ht'))
+    | _ => exact ht.elim
+  onto := slice_onto hx hstat12
+  encField := by
+    intro f Sf fld t hokt hf hal hlen hw hemp
+    cases t with
+    | list e ts =>
+      obtain ⟨hwf, hoks, hempt⟩ := hokt
+      simp only [Cls.slice] at hf hw hemp
+      obtain ⟨f', rfl⟩ : ∃ f', f = f' + 2 := ⟨f - 2, by omega⟩
+      have hl : ¬ fld.name.length > 32767 := by omega
+      have hm := slice_marshal hx (f' + 2) e ts hwf hoks hempt (by simp only [Cls.slice]; omega)
+      have hg : ∃ a, (a = 7 ∨ a = 11 ∨ a = 12) ∧
+          getTagType cx (f' + 2) (.slice c false (ts.map k.val)) = (a, .slice c false (ts.map k.val)) := by
+        cases ts with
+        | nil =>
+          refine ⟨arrTag (tagOfType c), hstat, ?_⟩
+          simp only [List.map_nil, getTagType]
+        | cons t0 ts' =>
+          have h0 := helem t0 (hoks t0 List.mem_cons_self)
+          have hg0 := hx.getTag (f' + 1) t0 (hoks t0 List.mem_cons_self) (by simp only [needMax] at hf; omega)
+          refine ⟨arrTag t0.tag, h0.2, ?_⟩
+          rw [List.map_cons, getTagType_slice_cons, hg0]
+          simp only [h0.1, Bool.false_eq_true, if_false]
+      obtain ⟨a, ha, hga⟩ := hg
+      have ha0 : ¬ a = 0 := by rcases ha with rfl | rfl | rfl <;> decide
+      have hnc : GoVal.isCarrier (.slice c false (ts.map k.val)) = false := rfl
+      have htyp : (if a = 7 ∨ a = 11 ∨ a = 12 then some (9 : Byte) else none) = some 9 := by rw [if_pos ha]
+      simp only [fieldEnc, hw, hemp, hal, Bool.false_eq_true, if_false, if_true, hga, ha0, hnc, htyp, writeTag, hl]
+      rw [show (NBT.list e ts).tag = 9 from rfl] at hm ⊢
+      simp only [Cls.slice] at hm
+      rw [hm]
+      simp only [encString, beN_eq, List.cons_append, List.append_assoc]
+    | _ => exact hokt.elim
+
 /-- the table `flds` (from position `k` on) lists the fields `sps`: names, index paths, options; found by name -/
 inductive Table (look : Bytes → Option Nat) : Nat → List Fld → List FSpec → Prop
   | nil (k : Nat) : Table look k [] []
   | cons {k : Nat} {fld : Fld} {flds : List Fld} {sp : FSpec} {sps : List FSpec} :
-      look sp.name = some k → fld.name = sp.name → fld.index = sp.path → fld.omitEmpty = sp.oe → fld.asList = false →
+      look sp.name = some k → fld.name = sp.name → fld.index = sp.path → fld.omitEmpty = sp.oe → fld.asList = sp.asList →
       sp.name.length < 32768 → Table look (k + 1) flds sps → Table look k (fld :: flds) (sp :: sps)
 
 /-- the fields can be decoded into `S` one after the other: each path leads to a zero value of the field's type,
@@ -1055,7 +1197,7 @@ theorem getElem?_append_length {α : Type} (pre : List α) (x : α) (post : List
 
 /-- one known key decoded into its (still zero) field -/
 theorem R_structStep (cx : SnbtCarrier) (d : Bool) (f : Nat) (flds fldsDone fldsRem : List Fld) (fld : Fld)
-    (sp : FSpec) (S : GoVal) (t : NBT) (hx : Exact cx sp.ty sp.cls) (hok : sp.cls.ok t)
+    (sp : FSpec) (S : GoVal) (t : NBT) (hx : FExact cx sp.ty sp.asList sp.cls) (hok : sp.cls.ok t)
     (hflds : flds = fldsDone ++ fld :: fldsRem) (hlook : lookupField flds sp.name = some fldsDone.length)
     (hidx : fld.index = sp.path) (hp : pathOK sp.path S = true) (hg : getAt sp.path S = some sp.ty.zero) :
     R (cost t + sp.cls.extra ≤ f) (structStep (unmarshal cx d f) d f flds t.tag sp.name S)
@@ -1070,7 +1212,7 @@ theorem R_structStep (cx : SnbtCarrier) (d : Bool) (f : Nat) (flds fldsDone flds
 theorem R_structLoop (cx : SnbtCarrier) (d : Bool) (f E : Nat) (flds : List Fld) :
     ∀ (sps : List FSpec) (fldsRem fldsDone : List Fld) (S : GoVal) (kvs : List (Bytes × NBT)) (w : Nat),
     Table (lookupField flds) fldsDone.length fldsRem sps →
-    (∀ sp ∈ sps, Exact cx sp.ty sp.cls ∧ sp.cls.extra ≤ E) →
+    (∀ sp ∈ sps, FExact cx sp.ty sp.asList sp.cls ∧ sp.cls.extra ≤ E) →
     flds = fldsDone ++ fldsRem → Sound S sps → okFields sps kvs →
     R (kvs.length + 1 ≤ w ∧ ∀ kv ∈ kvs, cost kv.2 + E ≤ f)
       (kvLoop (structStep (unmarshal cx d f) d f flds) w S) (encKvs kvs) (fillFields sps kvs S)
@@ -1113,7 +1255,7 @@ theorem R_structLoop (cx : SnbtCarrier) (d : Bool) (f E : Nat) (flds : List Fld)
 /-- the struct loop of `writeValue` over the remaining fields of the table -/
 theorem fieldsEnc_ok (cx : SnbtCarrier) (f : Nat) (look : Bytes → Option Nat) (Sf : GoVal) :
     ∀ (sps : List FSpec) (fldsRem : List Fld) (kvs : List (Bytes × NBT)) (k : Nat),
-    Table look k fldsRem sps → (∀ sp ∈ sps, Exact cx sp.ty sp.cls) → (∀ sp ∈ sps, sp.oe = true → isEmptyValue sp.ty.zero = true) →
+    Table look k fldsRem sps → (∀ sp ∈ sps, FExact cx sp.ty sp.asList sp.cls) → (∀ sp ∈ sps, sp.oe = true → isEmptyValue sp.ty.zero = true) →
     okFields sps kvs → needFields sps kvs ≤ f → GetAll Sf sps kvs →
     resMapM (fieldEnc (getTagType cx f) (Go.marshal cx f) Sf) fldsRem = Res.ok (partsOf sps kvs)
   | [], _, kvs, k, htab, _, _, _, _, _ => by
@@ -1153,9 +1295,8 @@ theorem fieldsEnc_ok (cx : SnbtCarrier) (f : Nat) (look : Bytes → Option Nat) 
         | true => simp [hne hb]
       have h1 : fieldEnc (getTagType cx f) (Go.marshal cx f) Sf fld =
           Res.ok (t.tag :: encString sp.name ++ encPayload t) := by
-        simp only [fieldEnc, hw, hoe, hemp, hal, Bool.false_eq_true, if_false,
-          hx.getTag f t hokt (by omega), hx.marshal f t hokt (by omega), writeTag, hname, ht0, hl]
-        simp only [encString, beN_eq, List.cons_append, List.append_assoc]
+        have := hx.encField f Sf fld t hokt (by omega) hal (by rw [hname]; exact hlen) hw (by rw [hoe]; exact hemp)
+        rwa [hname] at this
       have h2 := fieldsEnc_ok cx f look Sf sps fldsRem kvs (k + 1) hrest (fun sp' h' => hel sp' (List.mem_cons_of_mem _ h'))
         (fun sp' h' => hz sp' (List.mem_cons_of_mem _ h')) hoks (by omega) hget.2
       unfold resMapM
@@ -1282,6 +1423,21 @@ theorem wf_fields : ∀ (sps : List FSpec) (kvs : List (Bytes × NBT)), okFields
     · simp only [hk, if_false] at h
       exact wf_fields sps ((k, t) :: kvs) h.2 (fun sp' h' => hw sp' (List.mem_cons_of_mem _ h'))
 
+theorem s15_fields : ∀ (sps : List FSpec) (kvs : List (Bytes × NBT)), okFields sps kvs →
+    (∀ sp ∈ sps, sp.name.length < 32768 ∧ ∀ t, sp.cls.ok t → S15 t) → S15Kvs kvs
+  | [], [], _, _ => trivial
+  | [], _ :: _, h, _ => h.elim
+  | sp :: sps, [], _, _ => trivial
+  | sp :: sps, (k, t) :: kvs, h, hw => by
+    simp only [okFields] at h
+    by_cases hk : k = sp.name
+    · simp only [hk, if_true] at h
+      subst hk
+      have := hw sp List.mem_cons_self
+      exact ⟨this.1, this.2 t h.1, s15_fields sps kvs h.2.2 (fun sp' h' => hw sp' (List.mem_cons_of_mem _ h'))⟩
+    · simp only [hk, if_false] at h
+      exact s15_fields sps ((k, t) :: kvs) h.2 (fun sp' h' => hw sp' (List.mem_cons_of_mem _ h'))
+
 theorem table_names {look : Bytes → Option Nat} : ∀ {k : Nat} {flds : List Fld} {sps : List FSpec},
     Table look k flds sps → ∀ sp ∈ sps, sp.name.length < 32768
   | _, _, _, .nil _, _, h => by cases h
@@ -1295,7 +1451,7 @@ included — with field types that are exact classes is an exact class -/
 theorem exact_struct (cx : SnbtCarrier) (n : Bytes) (fields : List (FieldInfo × GoType)) (sps : List FSpec)
     (htab : Table (lookupField (typeFields (.struct n fields))) 0 (typeFields (.struct n fields)) sps)
     (hs : Sound (GoType.struct n fields).zero sps)
-    (hel : ∀ sp ∈ sps, Exact cx sp.ty sp.cls) :
+    (hel : ∀ sp ∈ sps, FExact cx sp.ty sp.asList sp.cls) :
     Exact cx (.struct n fields) (Cls.struct n fields sps) where
   zeroTy := rfl
   needPos := by intro t _; cases t <;> simp [Cls.struct]
@@ -1305,6 +1461,13 @@ theorem exact_struct (cx : SnbtCarrier) (n : Bytes) (fields : List (FieldInfo ×
     | compound kvs =>
       simp only [NBT.WF]
       exact wf_fields sps kvs ht (fun sp h => ⟨table_names htab sp h, (hel sp h).wf⟩)
+    | _ => exact ht.elim
+  s15 := by
+    intro t ht
+    cases t with
+    | compound kvs =>
+      simp only [S15]
+      exact s15_fields sps kvs ht (fun sp h => ⟨table_names htab sp h, (hel sp h).s15⟩)
     | _ => exact ht.elim
   reads := by
     intro d fuel t hok
@@ -1404,6 +1567,11 @@ theorem exact_array {cx : SnbtCarrier} {c : GoType} {k : Cls} (n : Nat) (hx : Ex
     intro t ht
     cases t with
     | list e ts => exact ht.1
+    | _ => exact ht.elim
+  s15 := by
+    intro t ht
+    cases t with
+    | list e ts => simp only [S15]; exact s15List_of (fun t' ht' => hx.s15 t' (ht.2.1 t' ht'))
     | _ => exact ht.elim
   reads := by
     intro d fuel t hok
@@ -1547,6 +1715,7 @@ theorem exact_restrict {cx : SnbtCarrier} {c : GoType} {k : Cls} (hx : Exact cx 
   marshal := fun f t ht hf => hx.marshal f t ht.1 hf
   needPos := fun t ht => hx.needPos t ht.1
   wf := fun t ht => hx.wf t ht.1
+  s15 := fun t ht => hx.s15 t ht.1
   onto := by
     rintro v ⟨hc, hq⟩
     obtain ⟨t, ht, hv, htag⟩ := hx.onto v hc
@@ -1705,6 +1874,7 @@ theorem exact_anyN_of (cx : SnbtCarrier) (n : Nat)
   zeroTy := rfl
   needPos := fun t _ => by simp [clsAnyN]
   wf := fun t ht => ht.1
+  s15 := fun t ht => ht.2.1
   reads := by
     intro d fuel t ⟨hwf, hs, _, _⟩
     cases fuel with
@@ -1841,6 +2011,7 @@ theorem exact_any (cx : SnbtCarrier) : Exact cx .iface clsAny where
   zeroTy := rfl
   needPos := fun t _ => by simp [clsAny]
   wf := fun t ht => ht.1
+  s15 := fun t ht => ht.2.1
   reads := fun d fuel t ht => (exact_anyN cx (cost t)).reads d fuel t ⟨ht.1, ht.2.1, ht.2.2, Nat.le_refl _⟩
   getTag := fun f t ht hf => (exact_anyN cx (cost t)).getTag f t ⟨ht.1, ht.2.1, ht.2.2, Nat.le_refl _⟩ hf
   marshal := fun f t ht hf => (exact_anyN cx (cost t)).marshal f t ⟨ht.1, ht.2.1, ht.2.2, Nat.le_refl _⟩ hf
@@ -1908,6 +2079,16 @@ def stripPtrs : GoType → GoType
   | .ptr c => stripPtrs c
   | c => c
 
+/-- the `,list` fields: typed-array slices, written and read as a TagList of their elements -/
+inductive ListField : GoType → Cls → Prop
+  | i8 : ListField (.slice (.int .i8)) (Cls.slice (.int .i8) clsI8)
+  | u8 : ListField (.slice (.int .u8)) (Cls.slice (.int .u8) clsU8)
+  | bool : ListField (.slice .bool) (Cls.slice .bool clsBool)
+  | i32 : ListField (.slice (.int .i32)) (Cls.slice (.int .i32) clsI32)
+  | u32 : ListField (.slice (.int .u32)) (Cls.slice (.int .u32) clsU32)
+  | i64 : ListField (.slice (.int .i64)) (Cls.slice (.int .i64) clsI64)
+  | u64 : ListField (.slice (.int .u64)) (Cls.slice (.int .u64) clsU64)
+
 /-- `Plain τ k`: `τ` is a type of the fragment and `k` its class — fixed-size scalars, strings, the typed arrays
 (slices and `[n]T`), `nbt.RawMessage`, `dynbt.Value`, `any`, and — nested to any depth — slices, arrays, string-keyed
 maps, pointers, and struct types (field tables with tags, `omitempty`, embedded structs by value) of these. -/
@@ -1958,7 +2139,8 @@ inductive Plain : GoType → Cls → Prop
       Table (lookupField (typeFields (.struct n fields))) 0 (typeFields (.struct n fields)) sps →
       Sound (GoType.struct n fields).zero sps →
       (∀ sp ∈ sps, sp.ty.encFuel + 3 ≤ (GoType.struct n fields).encFuel) →
-      (∀ sp ∈ sps, Plain sp.ty sp.cls) →
+      (∀ sp ∈ sps, sp.asList = true → ListField sp.ty sp.cls) →
+      (∀ sp ∈ sps, sp.asList = false → Plain sp.ty sp.cls) →
       Plain (.struct n fields) (Cls.struct n fields sps)
 
 theorem tagOfType_le (c : GoType) : (tagOfType c).toNat ≤ 12 := by
@@ -2067,6 +2249,32 @@ theorem any_need (t : NBT) (ht : clsAny.ok t) : clsAny.need t ≤ 2 * (clsAny.va
   have := depth_encFuel t ht.2.2
   simp only [clsAny, GoVal.encFuel]; omega
 
+theorem listField_inv (cx : SnbtCarrier) {c : GoType} {k : Cls} (h : ListField c k) :
+    FExact cx c true k ∧ (∀ t, k.ok t → k.need t ≤ 2 * (k.val t).encFuel + 8) ∧ k.extra ≤ c.encFuel := by
+  have hneed : ∀ (e : GoType) (ke : Cls), (∀ t, ke.ok t → ke.need t ≤ 2) →
+      ∀ t, (Cls.slice e ke).ok t → (Cls.slice e ke).need t ≤ 2 * ((Cls.slice e ke).val t).encFuel + 8 := by
+    intro e ke hk t ht
+    cases t with
+    | list el ts =>
+      have := needMax_le' (need := ke.need) (b := 2) ts (fun t' ht' => hk t' (ht.2.1 t' ht'))
+      simp only [Cls.slice, GoVal.encFuel]; omega
+    | _ => exact ht.elim
+  cases h with
+  | i8 => exact ⟨fexact_listSlice (exact_i8 cx) (by rintro _ ⟨v, rfl⟩; exact ⟨rfl, Or.inl rfl⟩) (Or.inl rfl) (by decide) rfl,
+      hneed _ _ (fun _ _ => Nat.le_refl 2), by simp [Cls.slice, clsI8, Cls.base]⟩
+  | u8 => exact ⟨fexact_listSlice (exact_u8 cx) (by rintro _ ⟨v, rfl⟩; exact ⟨rfl, Or.inl rfl⟩) (Or.inl rfl) (by decide) rfl,
+      hneed _ _ (fun _ _ => Nat.le_refl 2), by simp [Cls.slice, clsU8, Cls.base]⟩
+  | bool => exact ⟨fexact_listSlice (exact_bool cx) (by rintro _ (rfl | rfl) <;> exact ⟨rfl, Or.inl rfl⟩) (Or.inl rfl) (by decide) rfl,
+      hneed _ _ (fun _ _ => Nat.le_refl 2), by simp [Cls.slice, clsBool, Cls.base]⟩
+  | i32 => exact ⟨fexact_listSlice (exact_i32 cx) (by rintro _ ⟨v, rfl⟩; exact ⟨rfl, Or.inr (Or.inl rfl)⟩) (Or.inr (Or.inl rfl)) (by decide) rfl,
+      hneed _ _ (fun _ _ => Nat.le_refl 2), by simp [Cls.slice, clsI32, Cls.base]⟩
+  | u32 => exact ⟨fexact_listSlice (exact_u32 cx) (by rintro _ ⟨v, rfl⟩; exact ⟨rfl, Or.inr (Or.inl rfl)⟩) (Or.inr (Or.inl rfl)) (by decide) rfl,
+      hneed _ _ (fun _ _ => Nat.le_refl 2), by simp [Cls.slice, clsU32, Cls.base]⟩
+  | i64 => exact ⟨fexact_listSlice (exact_i64 cx) (by rintro _ ⟨v, rfl⟩; exact ⟨rfl, Or.inr (Or.inr rfl)⟩) (Or.inr (Or.inr rfl)) (by decide) rfl,
+      hneed _ _ (fun _ _ => Nat.le_refl 2), by simp [Cls.slice, clsI64, Cls.base]⟩
+  | u64 => exact ⟨fexact_listSlice (exact_u64 cx) (by rintro _ ⟨v, rfl⟩; exact ⟨rfl, Or.inr (Or.inr rfl)⟩) (Or.inr (Or.inr rfl)) (by decide) rfl,
+      hneed _ _ (fun _ _ => Nat.le_refl 2), by simp [Cls.slice, clsU64, Cls.base]⟩
+
 theorem plain_inv (cx : SnbtCarrier) {c : GoType} {k : Cls} (h : Plain c k) : PlainInv cx c k := by
   induction h with
   | bool => exact ⟨exact_bool cx, fun _ => by rintro _ (rfl | rfl) <;> exact Or.inr rfl,
@@ -2158,8 +2366,17 @@ theorem plain_inv (cx : SnbtCarrier) {c : GoType} {k : Cls} (h : Plain c k) : Pl
       simp only [Cls.ptr, GoVal.encFuel]; omega
     · have := ih.extra
       simp only [Cls.ptr, GoType.encFuel]; omega
-  | struct n fields sps htab hs hfuel _ ih =>
-    refine ⟨exact_struct cx n fields sps htab hs (fun sp h => (ih sp h).exact), ?_, ?_, ?_⟩
+  | struct n fields sps htab hs hfuel hlist _ ih =>
+    -- per field: what the struct lemmas need, the fuel bound, the pointer bound
+    have hper : ∀ sp ∈ sps, FExact cx sp.ty sp.asList sp.cls ∧
+        (∀ t, sp.cls.ok t → sp.cls.need t ≤ 2 * (sp.cls.val t).encFuel + 8) ∧ sp.cls.extra ≤ sp.ty.encFuel := by
+      intro sp hsp
+      cases hal : sp.asList with
+      | true => exact listField_inv cx (hlist sp hsp hal)
+      | false =>
+        have hinv := ih sp hsp hal
+        exact ⟨FExact.ofExact hinv.exact, hinv.need, hinv.extra⟩
+    refine ⟨exact_struct cx n fields sps htab hs (fun sp h => (hper sp h).1), ?_, ?_, ?_⟩
     · intro _ t ht
       cases t with
       | compound kvs => exact Or.inr rfl
@@ -2168,11 +2385,11 @@ theorem plain_inv (cx : SnbtCarrier) {c : GoType} {k : Cls} (h : Plain c k) : Pl
       cases t with
       | compound kvs =>
         have hget := getAll_fill sps kvs _ hs _ rfl
-        have := needFields_le_get _ sps kvs ht hget hs.nonempty (fun sp h => (ih sp h).need)
+        have := needFields_le_get _ sps kvs ht hget hs.nonempty (fun sp h => (hper sp h).2.1)
         simp only [Cls.struct]; omega
       | _ => exact ht.elim
     · exact extraMax_le sps (fun sp h => by
-        have h1 := (ih sp h).extra
+        have h1 := (hper sp h).2.2
         have h2 := hfuel sp h
         omega)
 
@@ -2251,6 +2468,172 @@ theorem plain_roundtrip_value (cx : SnbtCarrier) {c : GoType} {k : Cls} (h : Pla
   rw [hval] at this
   exact ⟨t, (plain_inv cx h).exact.wf t ht, this.1, this.2⟩
 
+/-! ### interfaces holding other dynamic types: what comes back
+
+`Encode` looks through an interface, `Decode` into an `any` builds its own dynamic types. So for a value `v` of a
+type of the fragment held in an `any`, `Decode(Encode(any(v)))` is `any(dynOf t)` — the canonical dynamic value of
+the tree `v` stands for: an `any(uint16(5))` comes back as `int16(5)`, a struct as a `map[string]any`, a pointer
+as what it points to. -/
+
+theorem getTagType_iface (cx : SnbtCarrier) (f : Nat) (x : GoVal) :
+    getTagType cx (f + 1) (.iface (some x)) = getTagType cx f x := by
+  simp only [getTagType]
+
+/-- decoding any well-formed payload into a nil `any` -/
+theorem R_unmarshal_iface (cx : SnbtCarrier) (d : Bool) (f : Nat) (t : NBT) (hwf : t.WF) (hs : S15 t) :
+    R (cost t ≤ f + 1) (unmarshal cx d (f + 1) .iface (GoType.iface).zero t.tag) (encPayload t) (.iface (some (dynOf t))) := by
+  unfold unmarshal
+  have hz : (GoType.iface).zero = .iface none := rfl
+  simp only [umIface, if_neg (tag_not_magic t).1, hz]
+  exact R_map (fun v => GoVal.iface (some (ofAny v))) (any_R t (f + 1) hwf hs)
+
+/-- **The round trip through an interface is the canonicalisation `v ↦ dynOf (tree of v)`.** For a value `k.val t` of
+a type of the fragment stored in an `any`: `Encode` writes the document of `t` (the interface leaves no trace), and
+`Decode` of it into a fresh `any` returns the canonical dynamic value of `t`. -/
+theorem plain_via_any (cx : SnbtCarrier) {c : GoType} {k : Cls} (h : Plain c k) (d : Bool) (fmt : Format)
+    (name : Bytes) (t : NBT) (hn : name.length < 32768) (hok : k.ok t) :
+    encode cx (isNet fmt) name (some (.iface (some (k.val t)))) = Res.ok (encDoc fmt name t) ∧
+    ∀ (s : Stream) (rest : Bytes), s.flat = encDoc fmt name t ++ rest →
+      ∃ s', decodeTyped cx (isNet fmt) d .iface s = (Res.ok (.iface (some (dynOf t)), docName fmt name), s') ∧
+        s'.flat = rest ∧ s'.failing = s.failing := by
+  have inv := plain_inv cx h
+  refine ⟨?_, fun s rest hs => ?_⟩
+  · unfold encode encodeF
+    have hn1 := inv.need t hok
+    have hF : 2 * (GoVal.iface (some (k.val t))).encFuel + 8 = (2 * (k.val t).encFuel + 13) + 1 := by
+      simp only [GoVal.encFuel]; omega
+    have hg : getTagType cx (2 * (GoVal.iface (some (k.val t))).encFuel + 8) (.iface (some (k.val t))) = (t.tag, k.inner t) := by
+      rw [hF, getTagType_iface]
+      exact inv.exact.getTag _ t hok (by omega)
+    have hm := inv.exact.marshal (2 * (GoVal.iface (some (k.val t))).encFuel + 8) t hok (by rw [hF]; omega)
+    simp only [hg, hm]
+    cases fmt with
+    | file =>
+      simp only [isNet, Bool.false_eq_true, if_false, writeTag]
+      rw [if_neg (by omega)]
+      simp only [encDoc, encString, beN_eq, List.cons_append, List.append_assoc]
+    | network =>
+      simp only [isNet, if_true, encDoc, List.cons_append, List.nil_append]
+  · exact decodeTyped_of_R' cx d fmt name t .iface _ (fun f => cost t ≤ f + 1) hn
+      (fun f => R_unmarshal_iface cx d f t (inv.exact.wf t hok) (inv.exact.s15 t hok))
+      (fun f hf => by have := cost_le t; omega) s rest hs
+
+/-! #### a `[]any` of byte-, int- or long-sized elements (marker `C02.any-slice-array`)
+
+`Encode` writes it as a typed array, so it comes back as `[]byte` / `[]int32` / `[]int64` in an `any`, and is
+refused by a `[]any` destination. -/
+
+theorem encode_anySlice_bytes (cx : SnbtCarrier) (f : Nat) (fmt : Format) (name : Bytes) (b : BitVec 8) (bs : List (BitVec 8))
+    (hn : name.length < 32768) :
+    encodeF cx (f + 3) (isNet fmt) name
+      (some (.slice .iface false ((b :: bs).map fun x => GoVal.iface (some (.int .i8 x.toInt))))) =
+      Res.ok (encDoc fmt name (.byteArray (b :: bs))) := by
+  have hg : getTagType cx (f + 3) (.slice .iface false ((b :: bs).map fun x => GoVal.iface (some (.int .i8 x.toInt)))) =
+      (7, .slice .iface false ((b :: bs).map fun x => GoVal.iface (some (.int .i8 x.toInt)))) := by
+    rw [List.map_cons, getTagType_slice_cons]
+    simp [getTagType, tagOfType, GoVal.typeOf, GoVal.isCarrier, GoType.isCarrier, arrTag]
+  have hm : Go.marshal cx (f + 3) (.slice .iface false ((b :: bs).map fun x => GoVal.iface (some (.int .i8 x.toInt)))) 7 =
+      Res.ok (encPayload (.byteArray (b :: bs))) := by
+    have h7 : (7 : BitVec 8).toNat = 7 := rfl
+    have hsl : GoVal.isCarrier (.slice .iface false ((b :: bs).map fun x => GoVal.iface (some (.int .i8 x.toInt)))) = false := rfl
+    unfold Go.marshal
+    rw [hsl]
+    simp only [Bool.false_eq_true, if_false, writeValue, h7]
+    rw [resMapM_map_ok byteOfElem _ (fun x => x) (b :: bs) (by
+      intro x _
+      simp only [byteOfElem, unwrapIface, wrapN1_toInt, BitVec.ofNat_toNat, BitVec.setWidth_eq])]
+    simp [resFlatten, Res.map, encPayload, beN_eq]
+  unfold encodeF
+  simp only [hg, hm]
+  cases fmt with
+  | file =>
+    simp only [isNet, Bool.false_eq_true, if_false, writeTag]
+    rw [if_neg (by omega)]
+    simp only [encDoc, encString, beN_eq, List.cons_append, List.append_assoc, NBT.tag, NBT.tagByteArray]
+  | network =>
+    simp only [isNet, if_true, encDoc, List.cons_append, List.nil_append, NBT.tag, NBT.tagByteArray]
+
+
+theorem encode_anySlice_ints (cx : SnbtCarrier) (f : Nat) (fmt : Format) (name : Bytes) (b : BitVec 32) (bs : List (BitVec 32))
+    (hn : name.length < 32768) :
+    encodeF cx (f + 3) (isNet fmt) name
+      (some (.slice .iface false ((b :: bs).map fun x => GoVal.iface (some (.int .i32 x.toInt))))) =
+      Res.ok (encDoc fmt name (.intArray (b :: bs))) := by
+  have hg : getTagType cx (f + 3) (.slice .iface false ((b :: bs).map fun x => GoVal.iface (some (.int .i32 x.toInt)))) =
+      (11, .slice .iface false ((b :: bs).map fun x => GoVal.iface (some (.int .i32 x.toInt)))) := by
+    rw [List.map_cons, getTagType_slice_cons]
+    simp [getTagType, tagOfType, GoVal.typeOf, GoVal.isCarrier, GoType.isCarrier, arrTag]
+  have hm : Go.marshal cx (f + 3) (.slice .iface false ((b :: bs).map fun x => GoVal.iface (some (.int .i32 x.toInt)))) 11 =
+      Res.ok (encPayload (.intArray (b :: bs))) := by
+    have h7 : (11 : BitVec 8).toNat = 11 := rfl
+    have hsl : GoVal.isCarrier (.slice .iface false ((b :: bs).map fun x => GoVal.iface (some (.int .i32 x.toInt)))) = false := rfl
+    unfold Go.marshal
+    rw [hsl]
+    simp only [Bool.false_eq_true, if_false, writeValue, h7]
+    rw [resMapM_map_ok (numOfElem 4) _ be32 (b :: bs) (by
+      intro x _
+      simp only [numOfElem, unwrapIface, wrapN4_toInt, beN_eq, be32])]
+    simp [resFlatten, encPayload, beN_eq]
+  unfold encodeF
+  simp only [hg, hm]
+  cases fmt with
+  | file =>
+    simp only [isNet, Bool.false_eq_true, if_false, writeTag]
+    rw [if_neg (by omega)]
+    simp only [encDoc, encString, beN_eq, List.cons_append, List.append_assoc, NBT.tag, NBT.tagIntArray]
+  | network =>
+    simp only [isNet, if_true, encDoc, List.cons_append, List.nil_append, NBT.tag, NBT.tagIntArray]
+
+theorem encode_anySlice_longs (cx : SnbtCarrier) (f : Nat) (fmt : Format) (name : Bytes) (b : BitVec 64) (bs : List (BitVec 64))
+    (hn : name.length < 32768) :
+    encodeF cx (f + 3) (isNet fmt) name
+      (some (.slice .iface false ((b :: bs).map fun x => GoVal.iface (some (.int .i64 x.toInt))))) =
+      Res.ok (encDoc fmt name (.longArray (b :: bs))) := by
+  have hg : getTagType cx (f + 3) (.slice .iface false ((b :: bs).map fun x => GoVal.iface (some (.int .i64 x.toInt)))) =
+      (12, .slice .iface false ((b :: bs).map fun x => GoVal.iface (some (.int .i64 x.toInt)))) := by
+    rw [List.map_cons, getTagType_slice_cons]
+    simp [getTagType, tagOfType, GoVal.typeOf, GoVal.isCarrier, GoType.isCarrier, arrTag]
+  have hm : Go.marshal cx (f + 3) (.slice .iface false ((b :: bs).map fun x => GoVal.iface (some (.int .i64 x.toInt)))) 12 =
+      Res.ok (encPayload (.longArray (b :: bs))) := by
+    have h7 : (12 : BitVec 8).toNat = 12 := rfl
+    have hsl : GoVal.isCarrier (.slice .iface false ((b :: bs).map fun x => GoVal.iface (some (.int .i64 x.toInt)))) = false := rfl
+    unfold Go.marshal
+    rw [hsl]
+    simp only [Bool.false_eq_true, if_false, writeValue, h7]
+    rw [resMapM_map_ok (numOfElem 8) _ be64 (b :: bs) (by
+      intro x _
+      simp only [numOfElem, unwrapIface, wrapN8_toInt, beN_eq, be64])]
+    simp [resFlatten, encPayload, beN_eq]
+  unfold encodeF
+  simp only [hg, hm]
+  cases fmt with
+  | file =>
+    simp only [isNet, Bool.false_eq_true, if_false, writeTag]
+    rw [if_neg (by omega)]
+    simp only [encDoc, encString, beN_eq, List.cons_append, List.append_assoc, NBT.tag, NBT.tagLongArray]
+  | network =>
+    simp only [isNet, if_true, encDoc, List.cons_append, List.nil_append, NBT.tag, NBT.tagLongArray]
+
+/-- … which an `any` destination reads back as `[]byte` -/
+theorem decode_byteArray_any (cx : SnbtCarrier) (d : Bool) (fmt : Format) (name : Bytes) (bs : List (BitVec 8))
+    (hn : name.length < 32768) (hl : bs.length < 2147483648) (s : Stream) (rest : Bytes)
+    (hs : s.flat = encDoc fmt name (.byteArray bs) ++ rest) :
+    ∃ s', decodeTyped cx (isNet fmt) d .iface s =
+        (Res.ok (.iface (some (.slice (.int .u8) false (bs.map fun b => GoVal.int .u8 b.toNat))), docName fmt name), s') ∧
+      s'.flat = rest ∧ s'.failing = s.failing :=
+  decodeTyped_of_R' cx d fmt name (.byteArray bs) .iface _ (fun f => cost (NBT.byteArray bs) ≤ f + 1) hn
+    (fun f => R_unmarshal_iface cx d f (.byteArray bs) (by simp only [NBT.WF]; omega) (by simp [S15]))
+    (fun f hf => by have := cost_le (NBT.byteArray bs); omega) s rest hs
+
+/-- … and a `[]any` destination refuses: a typed array does not decode into a slice of interfaces -/
+theorem unmarshal_typedArray_sliceAny (cx : SnbtCarrier) (d : Bool) (fuel : Nat) (old : GoVal) (tag : Byte)
+    (h : tag.toNat = 7 ∨ tag.toNat = 11 ∨ tag.toNat = 12) (s s' : Stream) (v : GoVal) :
+    unmarshal cx d fuel (.slice .iface) old tag s ≠ (Res.ok v, s') := by
+  intro hok
+  have := GoMC.Lemmas.NBTSound.accepts_unmarshal cx d fuel (.slice .iface) old tag s v s' hok
+  simp only [GoMC.Lemmas.NBTSound.Accepts, isByteLike, isIntLike, isLongLike, byteElem, intElem, longElem, Option.isSome] at this
+  rcases h with h | h | h <;> simp [h] at this
+
 /-! ### an instance
 
 ```go
@@ -2262,13 +2645,14 @@ type Ex struct {
     Next *Pos              `nbt:"next,omitempty"`
     U    [4]int32
     M    map[string][]int64
+    L    []int32           `nbt:"l,list"`
 }
 ``` -/
 
 def exPosFields : List (FieldInfo × GoType) := [
   ({ name := [88], anonymous := false, exported := true }, .f64),
   ({ name := [89], anonymous := false, exported := true }, .f64)]
-def exPosSpecs : List FSpec := [⟨[88], [0], .f64, false, clsF64⟩, ⟨[89], [1], .f64, false, clsF64⟩]
+def exPosSpecs : List FSpec := [⟨[88], [0], .f64, false, clsF64, false⟩, ⟨[89], [1], .f64, false, clsF64, false⟩]
 def exPos : GoType := .struct [80, 111, 115] exPosFields
 
 def exFields : List (FieldInfo × GoType) := [
@@ -2278,7 +2662,8 @@ def exFields : List (FieldInfo × GoType) := [
   ({ name := [78, 101, 120, 116], anonymous := false, exported := true,
      nbt := [110, 101, 120, 116, 44, 111, 109, 105, 116, 101, 109, 112, 116, 121] }, .ptr exPos),
   ({ name := [85], anonymous := false, exported := true }, .array 4 (.int .i32)),
-  ({ name := [77], anonymous := false, exported := true }, .map (.slice (.int .i64)))]
+  ({ name := [77], anonymous := false, exported := true }, .map (.slice (.int .i64))),
+  ({ name := [76], anonymous := false, exported := true, nbt := [108, 44, 108, 105, 115, 116] }, .slice (.int .i32))]
 
 
 /-- discharges `Table` for a concrete struct type by evaluating the model `typeFields` on it -/
@@ -2290,51 +2675,61 @@ macro "each_field" : tactic =>
   `(tactic| (simp only [List.forall_mem_cons, List.not_mem_nil, false_imp_iff, implies_true, and_true]; repeat' apply And.intro))
 
 theorem exPos_plain : Plain exPos (Cls.struct [80, 111, 115] exPosFields exPosSpecs) := by
-  refine .struct _ exPosFields exPosSpecs ?_ ⟨?_, ?_, ?_, ?_⟩ ?_ ?_
+  refine .struct _ exPosFields exPosSpecs ?_ ⟨?_, ?_, ?_, ?_⟩ ?_ ?_ ?_
   · field_table
   · unfold exPosSpecs; each_field <;> rfl
   · unfold exPosSpecs; decide
   · unfold exPosSpecs; each_field <;> decide
   · unfold exPosSpecs; each_field <;> decide
   · unfold exPosSpecs; each_field <;> decide
-  · unfold exPosSpecs; each_field <;> exact .f64
+  · unfold exPosSpecs; each_field <;> (intro h; cases h)
+  · unfold exPosSpecs; each_field <;> (intro _; exact .f64)
 
 def exPosCls : Cls := Cls.struct [80, 111, 115] exPosFields exPosSpecs
 def exSpecs : List FSpec := [
-  ⟨[97], [0], .int .i32, false, clsI32⟩,
-  ⟨[66], [1], .slice .str, true, Cls.slice .str clsStr⟩,
-  ⟨[88], [2, 0], .f64, false, clsF64⟩,
-  ⟨[89], [2, 1], .f64, false, clsF64⟩,
-  ⟨[110, 101, 120, 116], [3], .ptr exPos, true, Cls.ptr exPos exPosCls⟩,
-  ⟨[85], [4], .array 4 (.int .i32), false, clsArrNumsI32 4⟩,
-  ⟨[77], [5], .map (.slice (.int .i64)), false, Cls.map (.slice (.int .i64)) clsNumsI64⟩]
+  ⟨[97], [0], .int .i32, false, clsI32, false⟩,
+  ⟨[66], [1], .slice .str, true, Cls.slice .str clsStr, false⟩,
+  ⟨[88], [2, 0], .f64, false, clsF64, false⟩,
+  ⟨[89], [2, 1], .f64, false, clsF64, false⟩,
+  ⟨[110, 101, 120, 116], [3], .ptr exPos, true, Cls.ptr exPos exPosCls, false⟩,
+  ⟨[85], [4], .array 4 (.int .i32), false, clsArrNumsI32 4, false⟩,
+  ⟨[77], [5], .map (.slice (.int .i64)), false, Cls.map (.slice (.int .i64)) clsNumsI64, false⟩,
+  ⟨[108], [6], .slice (.int .i32), false, Cls.slice (.int .i32) clsI32, true⟩]
 
 theorem ex_plain : Plain (.struct [69, 120] exFields) (Cls.struct [69, 120] exFields exSpecs) := by
-  refine .struct _ exFields exSpecs ?_ ⟨?_, ?_, ?_, ?_⟩ ?_ ?_
+  refine .struct _ exFields exSpecs ?_ ⟨?_, ?_, ?_, ?_⟩ ?_ ?_ ?_
   · field_table
   · unfold exSpecs; each_field <;> rfl
   · unfold exSpecs; decide
   · unfold exSpecs; each_field <;> decide
   · unfold exSpecs; each_field <;> decide
   · unfold exSpecs; each_field <;> decide
+  · unfold exSpecs; each_field <;> first | (intro h; exact absurd h (by decide)) | (intro _; exact .i32)
   · unfold exSpecs; each_field
-    · exact .i32
-    · exact .slice .str (by simp [stripPtrs]) rfl rfl
-    · exact .f64
-    · exact .f64
-    · exact .ptr exPos_plain
-    · exact .arr_nums_i32 4
-    · exact .map .nums_i64
+    · intro _; exact .i32
+    · intro _; exact .slice .str (by simp [stripPtrs]) rfl rfl
+    · intro _; exact .f64
+    · intro _; exact .f64
+    · intro _; exact .ptr exPos_plain
+    · intro _; exact .arr_nums_i32 4
+    · intro _; exact .map .nums_i64
+    · intro h; cases h
 
-/-- the document `{a: 7, X: 1.0, Y: -0.0, U: [I; 1, 2, 3, 4], M: {k: [L; 5]}}` — `B` and `next` omitted — is in the class of `Ex` … -/
+/-- the document `{a: 7, X: 1.0, Y: -0.0, U: [I; 1, 2, 3, 4], M: {k: [L; 5]}, l: [1, 2]}` — `B` and `next` omitted, `l` a
+TagList of two TagInt — is in the class of `Ex` … -/
 example : (Cls.struct [69, 120] exFields exSpecs).ok (.compound [([97], .int 7), ([88], .double 0x3ff0000000000000),
-    ([89], .double 0x8000000000000000), ([85], .intArray [1, 2, 3, 4]), ([77], .compound [([107], .longArray [5])])]) := by
+    ([89], .double 0x8000000000000000), ([85], .intArray [1, 2, 3, 4]), ([77], .compound [([107], .longArray [5])]),
+    ([108], .list 3 [.int 1, .int 2])]) := by
   simp only [Cls.struct, exSpecs, okFields]
   simp (config := { decide := true }) only [if_true, if_false, true_and, and_true]
-  refine ⟨⟨_, rfl⟩, ⟨_, rfl⟩, ⟨_, rfl⟩, ⟨_, rfl, rfl, by decide⟩, ?_, by simp⟩
-  intro kv hkv
-  simp only [List.mem_cons, List.not_mem_nil, or_false] at hkv
-  subst hkv
-  exact ⟨by decide, _, rfl, by decide⟩
+  refine ⟨⟨_, rfl⟩, ⟨_, rfl⟩, ⟨_, rfl⟩, ⟨_, rfl, rfl, by decide⟩, ⟨?_, by simp⟩, ?_⟩
+  · intro kv hkv
+    simp only [List.mem_cons, List.not_mem_nil, or_false] at hkv
+    subst hkv
+    exact ⟨by decide, _, rfl, by decide⟩
+  · refine ⟨by simp [NBT.WF, NBT.WFList, NBT.tag, NBT.tagInt, NBT.tagEnd], ?_, by intro h; cases h⟩
+    intro t ht
+    simp only [List.mem_cons, List.not_mem_nil, or_false] at ht
+    rcases ht with rfl | rfl <;> exact ⟨_, rfl⟩
 
 end GoMC.Lemmas.NBTTyped
